@@ -67,10 +67,10 @@ func c42Literal(t *rapid.T, label string) string {
 }
 
 func c42Query(t *rapid.T) string {
-	switch rapid.IntRange(0, 5).Draw(t, "queryKind") {
+	switch rapid.IntRange(0, 7).Draw(t, "queryKind") {
 	case 0:
 		return ""
-	case 1:
+	case 1, 6, 7:
 		return rapid.SampledFrom([]string{
 			"$G1", "$G10", "$MTX_QUERY", "$MTX_PATH", "a=$G1&b=$G2", "x=$MTX_QUERY$MTX_QUERY", "$G", "$", "0", "1=2", "$$G1",
 		}).Draw(t, "queryPlaceholder")
@@ -130,9 +130,12 @@ func c42Case(t *rapid.T, rec *kit.Rec, adjacentMode, known bool) {
 		case 3, 4, 5, 6, 7:
 			var n int
 			switch {
-			case g == 0 || rapid.IntRange(0, 19).Draw(t, "oor") == 0:
+			case rapid.IntRange(0, 59).Draw(t, "oor") == 31: // (rapid favours small values: an interior value keeps this share low)
 				n = rapid.IntRange(g+1, g+12).Draw(t, "nOut")
 				outOfRange = true
+			case g == 0: // no group to refer to: a literal instead
+				toks = append(toks, c42Tok{kind: 0, lit: c42Literal(t, "litNoGroups")})
+				continue
 			case g >= 10 && rapid.Bool().Draw(t, "prefixPair"):
 				// $G1 next to $G1x, $G10 ... : indices whose decimal text is a prefix of another valid index
 				n = rapid.SampledFrom([]int{1, 1, 10, 11, 12, 13, 14, 15}).Draw(t, "nPrefix")
